@@ -103,7 +103,7 @@ def _run(case):
         mode = {"fast": TransactionMode.FAST, "locked": TransactionMode.LOCKED, "serializable": TransactionMode.SERIALIZABLE}[case["mode"]]
         raised = None
         try:
-            async with cache.transaction(mode=mode):
+            async with cache.transaction(mode=mode, timeout=3):      # not the default 10 s: the TTL of a lock left behind must be this one
                 for b, c in prog:
                     if c[0] == "set": await cache.set(c[1], c[2])
                     elif c[0] == "incr": await cache.incr(c[1])
@@ -124,9 +124,10 @@ def _run(case):
             pass
         stuck = "probe" not in mems[0].store
         locks_left = [sorted(k for k in m.store if k.startswith(":")) for m in mems]
+        lock_life = [[round((m.store[k][0] - vclock.Clock.now) / TICK) if m.store[k][0] is not None else -1 for k in sorted(m.store) if k.startswith(":")] for m in mems]
         data = [[(m.store[k][1] if k in m.store else None) for k in U] for m in mems]
         await cache.close()
-        return {"trace": trace, "raised": raised, "stuck": stuck, "locks_left": locks_left, "data": data, "nb": len(mems)}
+        return {"trace": trace, "raised": raised, "stuck": stuck, "locks_left": locks_left, "lock_life": lock_life, "data": data, "nb": len(mems)}
     return vclock.run(go)
 
 
@@ -168,7 +169,8 @@ def to_coq(case, obs):
         raised = not raised   # an exception of another class: never what the model allows
     data = [[None if v is None else Some(val_to_coq(v)) for v in d] for d in obs["data"]]
     return C("CFault", md, [S(k) for k in U], Z(1), init, cs, [Nat(b) for b in obs["used"]], [[S(k) for k in o] for o in obs["order"]],
-             [Nat(p) for p in case["faults"]], fds, raised, bool(obs["stuck"]), [[S(k) for k in l] for l in obs["locks_left"]], data)
+             [Nat(p) for p in case["faults"]], fds, raised, bool(obs["stuck"]), [[S(k) for k in l] for l in obs["locks_left"]], data,
+             [[Z(x) for x in l] for l in obs["lock_life"]])
 
 
 def nontrivial(case, obs):
